@@ -235,6 +235,13 @@ func genValidationCase(rt *rapid.T, class int) (g genVal, ok bool) {
 		g.Before = gen.JoinPlain(gen.QueryLexemes(g.Typed.Doc, gen.Canon))
 		if class == 1 {
 			n := rapid.IntRange(1, 3).Draw(rt, "nfaults")
+			if rapid.IntRange(0, 2).Draw(rt, "rarefault") == 0 {
+				// one fault from the rarely applicable ones, alone, so that nothing masks it
+				if f, ok := gen.ApplyRareDocFault(rt, g.Typed, g.Schema); ok {
+					g.Faults = append(g.Faults, f)
+					n = 0
+				}
+			}
 			for i := 0; i < n; i++ {
 				f, ok := gen.ApplyDocFault(rt, g.Typed, g.Schema, rapid.IntRange(0, gen.NumDocFaults()-1).Draw(rt, "fault"))
 				if ok {
